@@ -18,6 +18,10 @@ func init() { fw.Register(&c02{}) }
 
 func (*c02) ID() string    { return "C02" }
 func (*c02) Level() string { return "exploration" }
+
+// termination is not this property's claim (C04/C05 decide it): a case that exhausts the watchdog's
+// CPU allowance is a generated program that is too expensive, counted as inconclusive
+func (*c02) Config(tier string) fw.Config { return fw.Config{CrashInconclusive: true} }
 func (*c02) NumCases(tier string) int {
 	if tier == "thorough" {
 		return 300000
